@@ -48,6 +48,7 @@ type typesMap struct {
 	prefix     string
 	generated  map[string]bool
 	funcToTyps map[string][]types.Type
+	autonamed  map[string]string // the name a call was renamed to -> the name it was written with
 	typss      [][]types.Type
 	names      []string
 	reserved   map[string]struct{}
@@ -61,6 +62,7 @@ func newTypesMap(qual types.Qualifier, prefix string, reserved map[string]struct
 		prefix:     prefix,
 		generated:  make(map[string]bool),
 		funcToTyps: make(map[string][]types.Type),
+		autonamed:  make(map[string]string),
 		typss:      nil,
 		reserved:   reserved,
 		autoname:   autoname,
@@ -118,6 +120,10 @@ func (tm *typesMap) SetFuncName(funcName string, typs ...types.Type) (string, er
 		if tm.dedup {
 			return fName, nil
 		}
+		if tm.autoname && tm.autonamed[fName] == funcName {
+			// an earlier call of funcName with these types was renamed to fName: this one is that call again
+			return fName, nil
+		}
 		return "", fmt.Errorf("ambigious function names for type %s = (%s | %s)", typs, fName, funcName)
 	}
 	if ts, ok := tm.funcToTyps[funcName]; ok {
@@ -125,7 +131,9 @@ func (tm *typesMap) SetFuncName(funcName string, typs ...types.Type) (string, er
 			return funcName, nil
 		}
 		if tm.autoname {
-			return tm.GetFuncName(typs...), nil
+			name := tm.GetFuncName(typs...)
+			tm.autonamed[name] = funcName
+			return name, nil
 		}
 		return "", fmt.Errorf("conflicting function names %s(%v) and %s(%v)", funcName, ts, funcName, typs)
 	}
